@@ -368,7 +368,21 @@ def r12_4(prog, out):
     if ok:
         out.holds(key, prog.loc(actor.loop), "the actor's outer select ends the task on the deletion signal, closing the mailbox")
     else:
-        out.violation(key, prog.loc(actor.loop), "the subscription actor does not stop on the deletion signal: requests racing the deletion may wait forever")
+        # the loop may instead go on serving its mailbox (every handler answers for a deleted subscription) and end when the last
+        # handle is gone: `None => break` on the mailbox branch
+        ends_on_none = False
+        for a in li.awaits:
+            if a.select is None:
+                continue
+            for br in a.select.branches:
+                if "tokio::sync::mpsc" in (br.fut_ty or "") and "recv" in (br.fut_ty or "").lower():
+                    if br.cont_bb is not None and "return" in const_walk(li, br.cont_bb, lambda bb: "again" if bb == a.poll_bb else None):
+                        ends_on_none = True
+        if ends_on_none:
+            out.undecided(key, prog.loc(actor.loop), "the actor does not stop on the deletion signal; it serves its mailbox until the last handle is dropped: requests racing "
+                          "the deletion are answered by the handlers' own `deleted` arms (R07.x / R10.x judge those), not by a closed mailbox")
+        else:
+            out.violation(key, prog.loc(actor.loop), "the subscription actor neither stops on the deletion signal nor when its mailbox is closed: requests racing the deletion may wait forever")
 
 
 @rule("C12", "R12.5", "a gRPC error status in hand is never answered with Ok", floor=1)
